@@ -590,3 +590,47 @@ def cli_value_cond(cond, name):
     field of that name of a parameter struct the caller filled from the parsed arguments (`options.force`), possibly read with `.take()`"""
     m = re.fullmatch(r"(?:take\()?arg:(?:\w+\.[\w:<>, ]+\.)?%s\)?=(\w+)" % re.escape(name), cond)
     return m.group(1) if m else None
+
+
+# ---------------------------------------------------------------- whole-file writes (shared by C01-D?, C14, C17)
+def check_whole_file_writes(P, rule, reach, scope=lambda fid: True, what="file"):
+    """A file the tool produces is replaced as a whole or the write fails as a whole.  For every crate function in scope that is reachable:
+      * `OpenOptions::open` for writing needs `truncate(true)` (or `append`/`create_new`): otherwise a shorter new content keeps the tail of the old one;
+      * `Write::write` (one call, may write only part) is not a write of the content: its byte count must be looped on, which is what `write_all` does.
+    `fs::write` and `File::create` + `write_all` are the accepted idioms.  -> number of write sites looked at"""
+    n = 0
+    for fid in sorted(reach):
+        f = P.fns.get(fid)
+        if f is None or "{promoted" in fid or not fid.startswith(("tauri_typegen::", "cargo_tauri_typegen::", "<tauri_typegen::")) or not scope(fid):
+            continue
+        for c in f.calls:
+            if c.bb not in f.reach_blocks:
+                continue
+            cn = callee_name(c)
+            if cn == "std::fs::OpenOptions::open":
+                n += 1
+                chain = f.describe_origin(f.origin(c.args[0]), deep=8) if c.args else ""
+                flags = dict(re.findall(r"OpenOptions::(\w+)\([^()]*?(true|false)\)", chain))
+                # the chain text nests calls: collect every `OpenOptions::flag(.., true)` on it
+                flags = {}
+                for m in re.finditer(r"OpenOptions::(write|truncate|append|create_new|create|read)\(", chain):
+                    flags[m.group(1)] = True
+                writes = "write" in flags or "append" in flags
+                if writes and not ("truncate" in flags or "append" in flags or "create_new" in flags):
+                    rule.bad(V_(rule, f.id, "open-for-write-without-truncate",
+                                "%s opens a %s for writing without truncate(true): when the new content is shorter than the old one the old tail stays behind it" % (short_path(f.id), what), c))
+                else:
+                    rule.ok("%s: OpenOptions chain %s" % (short_path(f.id), sorted(flags)))
+            elif c.name == "write" and (c.trait == "std::io::Write") and re.search(r"std::fs::File|BufWriter<std::fs::File", c.self_ty or " ".join(c.generics)):
+                n += 1
+                rule.bad(V_(rule, f.id, "partial-write",
+                            "%s writes a %s with a single Write::write call: a short write returns Ok(n) and the rest of the content is silently missing (write_all loops)" % (short_path(f.id), what), c))
+            elif cn == "std::fs::write" or (c.name == "write_all" and c.trait == "std::io::Write" and re.search(r"std::fs::File", c.self_ty or "")):
+                n += 1
+                rule.ok("%s: %s" % (short_path(f.id), short_path(c.path)))
+    return n
+
+
+def V_(rule, where, key, text, c):
+    from common import V
+    return V(rule.id, where, key, text, c.file, c.line)
